@@ -60,7 +60,7 @@ REQUIRED = dict(
              'mixture:unity', 'mixture:exceed', 'avail:memory', 'avail:file', 'avail:none', 'fill-gas-active',
              'trace-inactive', 'nlayers:2', 'nlayers:100', 'via-forward-model', 'via-setter', 'twolayer:smoothed',
              'route:file', 'route:makefree+file', 'file-gases:1', 'routes:abundance-written',
-             'routes:gas-added-after-initialisation', 'routes:active-gas-added-later'])
+             'routes:gas-added-after-initialisation', 'routes:active-gas-added-later', 'grid:cold-layers'])
 
 NLAYERS = list(range(2, 61)) + [100]
 FILL_POOL = ['H2', 'He', 'Ne', 'N2', 'CO2', 'Ar', 'O2']
@@ -112,6 +112,12 @@ def gen_grid(rng, n):
         lev = np.logspace(lpmax, lpmax - dec, n + 1)
         P = np.sqrt(lev[:-1] * lev[1:])
     T = rng.uniform(100, 3500) * np.ones(n) if rng.random() < 0.3 else rng.uniform(100, 3500, n)
+    if rng.random() < 0.15:
+        # a cold atmosphere (ice giants, the upper layers of temperate planets): some or all layers between 20 and 100 K
+        cold = rng.random(n) < 0.6
+        cold[int(rng.integers(0, n))] = True
+        T = np.where(cold, rng.uniform(20, 100, n), T)
+        kind = kind + '+cold-layers'
     return P, T, kind
 
 
@@ -249,7 +255,9 @@ def wl_mixture(ctx, rng):
     from taurex.data.profiles.chemistry import TaurexChemistry
     n = gen_nlayers(rng)
     P, T, gk = gen_grid(rng, n)
-    ctx.observe('grid:' + gk)
+    ctx.observe('grid:' + gk.replace('+cold-layers', ''))
+    if gk.endswith('+cold-layers'):
+        ctx.observe('grid:cold-layers')
     nf = int(rng.choice([1, 2, 2, 3, 4]))
     fills = [str(m) for m in rng.choice(FILL_POOL, nf, replace=False)]
     ratios = [float(10 ** rng.uniform(-6, 3)) if rng.random() < 0.3 else float(10 ** rng.uniform(-3, 0)) for _ in fills[1:]]
@@ -373,7 +381,9 @@ def wl_gas(ctx, rng):
     """Every built-in abundance profile on its own, over the layer counts."""
     n = gen_nlayers(rng)
     P, T, gk = gen_grid(rng, n)
-    ctx.observe('grid:' + gk)
+    ctx.observe('grid:' + gk.replace('+cold-layers', ''))
+    if gk.endswith('+cold-layers'):
+        ctx.observe('grid:cold-layers')
     kind = GAS_KINDS[rng.integers(0, 5)] if rng.random() < 0.6 else 'TwoLayerGas'
     mol = str(rng.choice(TRACE_POOL))
     g = gen_gas(ctx, rng, mol, kind, P, float(10 ** rng.uniform(-6, 0)))
